@@ -188,7 +188,7 @@ struct G<'a, 'g, 't> {
 /// Failure reasons a non-faulty step must not produce by accident (construction over rejection):
 /// they say nothing about resources and only cut the manifest short.
 fn boring(why: Why) -> bool {
-    matches!(why, "auth" | "emptyproof" | "novault" | "any" | "nobucket" | "noproof" | "zone_empty" | "exists" | "fee_touched" | "trap" | "insufficient_proofs")
+    matches!(why, "auth" | "emptyproof" | "novault" | "any" | "nobucket" | "noproof" | "zone_empty" | "exists" | "fee_touched" | "insufficient_proofs")
 }
 
 impl<'a, 'g, 't> G<'a, 'g, 't> {
